@@ -137,7 +137,8 @@ func docNodeAt(root *DocNode, path []int) (*DocNode, error) {
 //	        only in letter case, see docCase); value = Val, or a deep copy
 //	        of the (already edited) node at Copy.  The new value gets the identity New (default "new").
 //	rev   : the children of the collection at Path are written in reverse order
-//	key   : the key of the entry at Path is replaced by Key (identity unchanged)
+//	key   : the key of the entry at Path is replaced by Key (if given) and transformed by Case
+//	        ("" | "upper" | "mixed"); identity unchanged
 //	style : St of the node at Path is replaced (e.g. "flow", "'")
 type DocOp struct {
 	Op   string   `json:"op"`
@@ -246,7 +247,10 @@ func docApply(base *DocNode, ops []DocOp) (*DocNode, error) {
 			}
 			for j := range p.P {
 				if p.P[j].Val == n {
-					p.P[j].Key = op.Key
+					if op.Key != "" {
+						p.P[j].Key = op.Key
+					}
+					p.P[j].Key = docCase(p.P[j].Key, op.Case)
 				}
 			}
 		case "ins":
